@@ -96,11 +96,11 @@ class Keccak(object):
         needed = len(M)*8
         # handle NIST MSB alignment to Keccak LSB alignment for last byte
         # (see Keccak SHA-3 submission §6.1):
-        if bitlen:
+        if bitlen is not None:
             assert bitlen<=needed
             needed = bitlen
             if not self.duplexing:
-                b = Bits(M[-1:],size=needed%8)[::-1]
+                b = Bits(M[needed//8:needed//8+1],size=needed%8)[::-1]
                 M = M[:needed//8]+bytes([b.ival])
         r = self.r
         br,rr = divmod(r,8)
